@@ -37,6 +37,9 @@ fn main() {
         eprintln!("HARNESS ERROR: {e}");
         std::process::exit(2);
     }
+    if !matches!(args.get(1).map(|s| s.as_str()), Some("worker")) {
+        exec::loud_panics_on_this_thread();
+    }
     let code = match args.get(1).map(|s| s.as_str()) {
         Some("run") => {
             let prop = arg_val(&args, "--property").expect("--property");
